@@ -1064,6 +1064,14 @@ impl<T: Send + Clone> Clone for BoundedSyncReceiver<T> {
   fn clone(&self) -> Self {
     let new_tail_val = self.tail.load(Ordering::Acquire);
     let new_consumer_tail = Arc::new(AtomicUsize::new(new_tail_val));
+    // a clone of a closed handle is closed too: it must not revive a disconnected channel
+    if self.closed.load(Ordering::Relaxed) {
+      return Self {
+        shared: Arc::clone(&self.shared),
+        tail: new_consumer_tail,
+        closed: AtomicBool::new(true),
+      };
+    }
     let _lock = self.shared.tails_mutex.lock();
     self
       .shared
@@ -1080,6 +1088,14 @@ impl<T: Send + Clone> Clone for BoundedAsyncReceiver<T> {
   fn clone(&self) -> Self {
     let new_tail_val = self.tail.load(Ordering::Acquire);
     let new_consumer_tail = Arc::new(AtomicUsize::new(new_tail_val));
+    // a clone of a closed handle is closed too: it must not revive a disconnected channel
+    if self.closed.load(Ordering::Relaxed) {
+      return Self {
+        shared: Arc::clone(&self.shared),
+        tail: new_consumer_tail,
+        closed: AtomicBool::new(true),
+      };
+    }
     let _lock = self.shared.tails_mutex.lock();
     self
       .shared
